@@ -1,14 +1,14 @@
 ------------------------------ MODULE MC_Export ------------------------------
 (* Exports spec-defined spaces as ndjson (run by setup; see ../check).
    Every space is an operator WITH a (dummy) parameter: TLC pre-evaluates zero-arity constant definitions at start-up,
-   which would build every space -- including the 111^N vocabulary sequences -- on every export. *)
+   which would build every space -- including the 97^N vocabulary sequences -- on every export. *)
 EXTENDS Gram, Text, ExpandFix, Escape, Options, Spell, Contract, Json, IOUtils, SequencesExt
 
 What == IOEnv.VH_WHAT
 OutF == IOEnv.VH_OUT
 NN   == atoi(IOEnv.VH_N)
 
-PatSetOf(u) == IF IOEnv.VH_PROF = "ctxfill" THEN CtxFillPats ELSE IF IOEnv.VH_PROF = "condctx" THEN CondCtxFillPats ELSE IF IOEnv.VH_PROF = "wildshapes" THEN WildShapePats ELSE PatsOfSize(NN, Prof(IOEnv.VH_PROF))
+PatSetOf(u) == IF IOEnv.VH_PROF = "ctxfill" THEN CtxFillPats ELSE IF IOEnv.VH_PROF = "condctx" THEN CondCtxFillPats ELSE IF IOEnv.VH_PROF = "wildshapes" THEN WildShapePats ELSE IF IOEnv.VH_PROF = "plainctx" THEN PlainCtxFillPats ELSE PatsOfSize(NN, Prof(IOEnv.VH_PROF))
 PatRecs(u) == LET S == SetToSeq(PatSetOf(0))
            IN [q \in 1..Len(S) |-> [id |-> q, ast |-> S[q].ast, ng |-> S[q].ng]]
 \* single-site injections of every pattern of the base space
